@@ -4,7 +4,6 @@
 //! - Format string expressions (f-strings): `f"Hello {name}"`
 //! - Range expressions: `start..end`, `start..=end`, `..end`, `start..`
 
-use incan_core::strings::escape_format_literal;
 use proc_macro2::{Literal as TokenLiteral, TokenStream};
 use quote::quote;
 
@@ -26,7 +25,7 @@ impl<'a> IrEmitter<'a> {
     ///
     /// ## Notes
     ///
-    /// - Literal segments are brace-escaped via `incan_core::strings::escape_format_literal`.
+    /// - Literal segments are passed through unchanged (the lexer already turned `{{` / `}}` into `{` / `}`).
     /// - Expression segments are formatted via `format!("{}", expr)` before being passed to the semantic-core f-string
     ///   join helper.
     pub(in super::super) fn emit_format_expr(&self, parts: &[FormatPart]) -> Result<TokenStream, EmitError> {
@@ -38,7 +37,8 @@ impl<'a> IrEmitter<'a> {
         for part in parts {
             match part {
                 FormatPart::Literal(s) => {
-                    current.push_str(&escape_format_literal(s));
+                    // `fstring` only concatenates (it is not a format string), so literal braces stay as they are
+                    current.push_str(s);
                 }
                 FormatPart::Expr(e) => {
                     literal_parts.push(current.clone());
